@@ -423,7 +423,13 @@ def main(ctx):
         'get as written': 'AllCreatedUnderDest',
         'get with name filter, links': 'AllCreatedUnderDest',
     }
-    with ThreadPoolExecutor(max_workers=4) as ex:
+    if quick:
+        # design runs that only re-establish history (rules as they were
+        # before the repairs) or repeat a result at another bound: thorough
+        for name in ('fs as written', 'fs absolute link targets',
+                     'map as-written', 'get as written'):
+            jobs.pop(name, None)
+    with ThreadPoolExecutor(max_workers=5) as ex:
         futs = {name: ex.submit(fn) for name, fn in jobs.items()}
         results = {name: f.result() for name, f in futs.items()}
     for name, res in results.items():
@@ -859,7 +865,7 @@ def replay_spelled(ctx, pc, results, quick, found, cache, world3):
             seen.add(k)
             cases.append((x[0], x[1], None, False, False))
     cases.sort(key=lambda c: (len(c[0]), json.dumps(c[0])))
-    if quick and len(cases) > 1300:
+    if quick and len(cases) > 1000:
         short = [c for c in cases if len(c[0]) <= 1]
         rest = [c for c in cases if len(c[0]) > 1]
         cases = short + rest[::len(rest) // 800 + 1]
@@ -1077,10 +1083,10 @@ def replay_mget(ctx, pc, results, quick):
         cases = printed_blocks(results['mget / glob (table)'], 'MCASE')
         ctx.require(len(cases) > 100, 'no mget case table')
         cases.sort(key=lambda c: json.dumps(c, sort_keys=True))
-        if len(cases) > (900 if quick else 6000):
+        if len(cases) > (900 if quick else 3500):
             short = [c for c in cases if len(c[1]) <= 1]
             rest = [c for c in cases if len(c[1]) > 1]
-            cases = short + rest[::len(rest) // (300 if quick else 5000) + 1]
+            cases = short + rest[::len(rest) // (300 if quick else 2800) + 1]
         if quick:
             cases = [c for i, c in enumerate(cases)
                      if (c[0]['dest'] == 'dir' and c[0]['cont']) or i % 6 == 0]
@@ -1434,6 +1440,23 @@ def replay_saved(ctx, pc):
             print('   escapes:', [e.as_list() for e in r['escapes']],
                   r['outside'])
             again = bool(r['escapes'] or r['outside'])
+        finally:
+            world.close()
+    elif rp.get('kind') == 'mget':
+        import posixpath
+        world = pc.DownloadWorld()
+        try:
+            cfg = rp['cfg']
+            pat = pat_of_model(cfg['pat']).encode()
+            ents = [conv_ent(e, world.area.top) for e in rp['hist']]
+            r = world.run_mget(pat, ents, cfg['dest'], cfg['cont'])
+            g = world.run_glob(pat, ents, True)
+            bad = [x for x in (g['names'] or []) if x.startswith(b'/') or not (
+                posixpath.normpath(x) + b'/').startswith(b's/')]
+            print('   mget escapes:', [e.as_list() for e in r['escapes']],
+                  r['outside'])
+            print('   glob names outside the searched directory:', bad)
+            again = bool(r['escapes'] or r['outside'] or bad)
         finally:
             world.close()
     elif rp.get('kind') == 'map':
